@@ -242,6 +242,12 @@ def run(ctx: Ctx) -> int:
     tests = [n for n in walk_local(co) if isinstance(n, ast.If)]
     good = bool(raises) and any("overwrite" in ast.unparse(t.test) and "isfile" in ast.unparse(t.test) for t in tests)
     ctx.oblige("C18.b", good, co, "check_overwrite raises when overwrite is off and the file exists" if good else "check_overwrite no longer refuses existing files", fn=co, construct="check_overwrite refuses")
+    # ... and it looks at the location that will be written: every write opens `<path>.absolute`
+    probes = [c for c in calls_in(co) if call_name(c) in ("os.path.isfile", "os.path.exists", "os.access", "os.path.lexists") and c.args]
+    written = {ast.unparse(c.args[0]).split(".")[-1] for _, c in all_w if c.args and isinstance(c.args[0], ast.Attribute)}
+    cop = co.args.args[0].arg if co.args.args else None
+    ok = bool(probes) and all(isinstance(c.args[0], ast.Attribute) and isinstance(c.args[0].value, ast.Name) and c.args[0].value.id == cop and c.args[0].attr in (written or {"absolute"}) for c in probes)
+    ctx.oblige("C18.b", ok, probes[0] if probes else co, "check_overwrite probes the same location the write opens (`.absolute`)" if ok else f"check_overwrite probes `{ast.unparse(probes[0].args[0]) if probes else '?'}` while the write opens `.absolute`: for a target spelt `~/x.yaml`, file://..., or a Path with another cwd the existing file is not seen and is overwritten without overwrite=True", fn=co, construct="overwrite probe on the written location")
 
     ctx.trusted_base += ["open()/fsspec.open() with a constant mode containing w/a/x/+ are the only ways `save` creates or truncates files"]
     ctx.assumptions += ["calls that can fail because of the configuration: " + ", ".join(sorted(FALLIBLE_LEAVES))]
